@@ -150,7 +150,19 @@ func Run(src io.Reader, o Opts) (obs Obs) {
 
 	switch o.Entry {
 	case "reader":
-		rd := &wsutil.Reader{Source: src, State: st, CheckUTF8: o.CheckUTF8, SkipHeaderCheck: o.SkipCheck, MaxFrameSize: o.MaxFrameSize, Extensions: o.Extensions}
+		// (the Reader comes from a struct literal or from one of the three constructors, options set afterwards)
+		var rd *wsutil.Reader
+		switch k := (o.Buf + len(o.Wrap)) % 3; {
+		case k == 0:
+			rd = &wsutil.Reader{Source: src, State: st}
+		case k == 1 && st == ws.StateServerSide:
+			rd = wsutil.NewServerSideReader(src)
+		case k == 1 && st == ws.StateClientSide:
+			rd = wsutil.NewClientSideReader(src)
+		default:
+			rd = wsutil.NewReader(src, st)
+		}
+		rd.CheckUTF8, rd.SkipHeaderCheck, rd.MaxFrameSize, rd.Extensions = o.CheckUTF8, o.SkipCheck, o.MaxFrameSize, o.Extensions
 		var ctlh wsutil.FrameHandlerFunc
 		switch o.Intermediate {
 		case 0:
@@ -464,4 +476,63 @@ func ExpectPongs(frames []ref.Frame) [][]byte {
 		}
 	}
 	return out
+}
+
+// Prelude is "another connection's unfinished business": a connection of the same process that ends its life in the
+// MIDDLE of a text message - a close frame between the fragments after a fragment that stopped inside a multi-byte
+// character, the transport cut inside a character, a message that is not UTF-8 - read through the one-call helpers.
+// What the helpers return for it is judged elsewhere (C07, C08, C16); here it only has to have happened, on the same
+// goroutine, right before a valid stream is read: whatever the helpers keep between calls must not carry over.
+func Prelude(kind int) {
+	side := ref.Side(ref.SideServer)
+	if kind%2 == 1 {
+		side = ref.SideClient
+	}
+	var frames []ref.Frame
+	switch kind / 2 % 4 {
+	case 0:
+		frames = []ref.Frame{{H: ref.Header{Op: ref.OpText}, Payload: []byte("ab\xe2\x82")}, {H: ref.Header{Fin: true, Op: ref.OpClose}, Payload: []byte{0x03, 0xe9, 'b', 'y', 'e'}}}
+	case 1:
+		frames = []ref.Frame{{H: ref.Header{Op: ref.OpText}, Payload: []byte("\xf0\x9f")}} // and the stream ends
+	case 2:
+		frames = []ref.Frame{{H: ref.Header{Fin: true, Op: ref.OpText}, Payload: []byte("ok\xff\xfe")}}
+	case 3:
+		frames = []ref.Frame{{H: ref.Header{Op: ref.OpText}, Payload: []byte("\xc3")}, {H: ref.Header{Fin: true, Op: ref.OpPing}, Payload: []byte("p")}, {H: ref.Header{Fin: true, Op: ref.OpClose}}}
+	}
+	var stream []byte
+	for _, f := range frames {
+		if side == ref.SideServer {
+			f.H.Masked = true
+			f.H.Mask = [4]byte{0x11, 0x22, 0x33, byte(kind)}
+		}
+		stream = append(stream, f.Encode()...)
+	}
+	st := ws.StateServerSide
+	if side == ref.SideClient {
+		st = ws.StateClientSide
+	}
+	rw := func() io.ReadWriter {
+		return struct {
+			io.Reader
+			io.Writer
+		}{bytes.NewReader(stream), io.Discard}
+	}
+	switch kind / 8 % 3 {
+	case 0:
+		if side == ref.SideServer {
+			wsutil.ReadClientData(rw())
+			wsutil.ReadClientText(rw())
+		} else {
+			wsutil.ReadServerData(rw())
+			wsutil.ReadServerText(rw())
+		}
+	case 1:
+		wsutil.ReadMessage(bytes.NewReader(stream), st, nil)
+		wsutil.ReadData(rw(), st)
+	case 2:
+		if _, r, err := wsutil.NextReader(bytes.NewReader(stream), st); err == nil {
+			io.Copy(io.Discard, r)
+		}
+		wsutil.ReadData(rw(), st)
+	}
 }
